@@ -258,12 +258,13 @@ def one_case(ctx, prog, label="gen"):
                      {"before": paths_of(model)[:6], "after": paths_of(r)[:6]})
         # ---- correspondence: predicted parameter order
         if route in ("dict", "pickle", "database") and not (route == "dict" and nested_assertions(model)):
-            ans = ctx.lean.ask({"p": "C08", "comp": comp, "keep_ids": keeps_order})
+            ans = ctx.lean.ask({"p": "C08", "comp": comp, "keep_ids": keeps_order, "route": route})
             if "driver_error" in ans:
                 ctx.disagree("driver", c, None, ans)
                 continue
-            impl_paths = [list(p) for p in paths_of(r)]
-            ans["paths"] = [list(x) for x in (canon_path(model, q) for q in map(tuple, ans["paths"])) if x is not None]
+            # the model predicts the advertised paths exactly, operand names of arithmetic priors
+            # after a reload (left_/right_) included
+            impl_paths = [list(map(str, p)) for p in r.paths]
             if impl_paths != ans["paths"]:
                 ctx.disagree(f"C08.order.{route}", c, impl_paths[:8], ans["paths"][:8])
             if r.prior_count != ans["count"]:
